@@ -77,6 +77,36 @@ pub struct UserT4;
 /// user type whose name collides with the built-in "u32"
 #[derive(Debug)]
 pub struct UserU32;
+/// a third definition of "UserT": same name, variable width
+#[derive(Debug)]
+pub struct UserTV;
+impl redb::Value for UserTV {
+    type SelfType<'a> = &'a [u8];
+    type AsBytes<'a> = &'a [u8];
+    fn fixed_width() -> Option<usize> {
+        None
+    }
+    fn from_bytes<'a>(data: &'a [u8]) -> &'a [u8]
+    where
+        Self: 'a,
+    {
+        data
+    }
+    fn as_bytes<'a, 'b: 'a>(value: &'a &'b [u8]) -> &'a [u8]
+    where
+        Self: 'b,
+    {
+        value
+    }
+    fn type_name() -> redb::TypeName {
+        redb::TypeName::new("UserT")
+    }
+}
+impl redb::Key for UserTV {
+    fn compare(a: &[u8], b: &[u8]) -> Ordering {
+        a.cmp(b)
+    }
+}
 user_type!(redb, UserT, u64, 8, "UserT");
 user_type!(redb, UserT4, u32, 4, "UserT");
 user_type!(redb, UserU32, u32, 4, "u32");
@@ -135,6 +165,17 @@ impl Ty for UserT4 {
     }
     fn dec(b: &[u8]) -> (u64, usize) {
         (u64::from(<UserT4 as Value>::from_bytes(b)), 0)
+    }
+}
+impl Ty for UserTV {
+    fn enc(i: u64, pad: usize) -> Vec<u8> {
+        // big-endian number first: byte order = numeric order
+        let mut v = i.to_be_bytes().to_vec();
+        v.extend(pat(i, pad));
+        v
+    }
+    fn dec(b: &[u8]) -> (u64, usize) {
+        (u64::from_be_bytes(b[..8].try_into().unwrap()), b.len() - 8)
     }
 }
 impl Ty for UserU32 {
@@ -242,7 +283,7 @@ pub struct TId {
     width: Option<usize>,
 }
 
-pub const TYPES: [&str; 15] = ["u64", "u32", "bytes", "str", "string", "user", "user4", "useru32", "optu32", "optuser", "tupf", "tupuser", "tupv", "arr4", "arr4r"];
+pub const TYPES: [&str; 16] = ["u64", "u32", "bytes", "str", "string", "user", "user4", "userv", "useru32", "optu32", "optuser", "tupf", "tupuser", "tupv", "arr4", "arr4r"];
 
 fn tid(tok: &str) -> TId {
     let (canon, legacy, width): (&str, Option<&str>, Option<usize>) = match tok {
@@ -253,6 +294,7 @@ fn tid(tok: &str) -> TId {
         "string" => ("1:String", None, None),
         "user" => ("2:UserT", None, Some(8)),
         "user4" => ("2:UserT", None, Some(4)),
+        "userv" => ("2:UserT", None, None),
         "useru32" => ("2:u32", None, Some(4)),
         "optu32" => ("4:Option<u32>", Some("1:Option<u32>"), Some(5)),
         "optuser" => ("2:Option<u32>", Some("1:Option<u32>"), Some(5)),
@@ -268,7 +310,9 @@ fn tid(tok: &str) -> TId {
 }
 
 /// the (key, value) pairs for which handles are instantiated
-pub const PAIRS: [(&str, &str); 25] = [
+pub const PAIRS: [(&str, &str); 27] = [
+    ("userv", "u64"),
+    ("u64", "userv"),
     ("tupuser", "bytes"),
     ("u64", "u64"),
     ("u64", "bytes"),
@@ -316,6 +360,8 @@ macro_rules! with_pair {
             ("u64", "useru32") => $f::<u64, UserU32>($($args),*),
             ("user", "u64") => $f::<UserT, u64>($($args),*),
             ("user4", "u64") => $f::<UserT4, u64>($($args),*),
+            ("userv", "u64") => $f::<UserTV, u64>($($args),*),
+            ("u64", "userv") => $f::<u64, UserTV>($($args),*),
             ("u64", "user") => $f::<u64, UserT>($($args),*),
             ("u64", "user4") => $f::<u64, UserT4>($($args),*),
             ("tupf", "bytes") => $f::<(u64, u32), &'static [u8]>($($args),*),
@@ -342,6 +388,7 @@ macro_rules! with_type {
             "string" => $f::<String>(),
             "user" => $f::<UserT>(),
             "user4" => $f::<UserT4>(),
+            "userv" => $f::<UserTV>(),
             "useru32" => $f::<UserU32>(),
             "optu32" => $f::<Option<u32>>(),
             "optuser" => $f::<Option<UserU32>>(),
